@@ -121,6 +121,8 @@ def run_concrete(fn, args):
             return 'HOLDS', 'admitted exception %s' % type(e).__name__
         import traceback
         frames = traceback.extract_tb(e.__traceback__)
+        if isinstance(e, HarnessLimit):
+            return 'HARNESS', 'stand-in limit: %s' % e
         if not any(f.filename.startswith(REPO + '/') for f in frames):
             # the exception never passed through the code under test: a bug of the harness itself
             return 'HARNESS', 'lemma code raised %s: %s\n%s' % (type(e).__name__, e, traceback.format_exc(limit=6))
@@ -141,3 +143,25 @@ def rxlemma(name, prop, quick=({},), thorough=None, timeout=300, covers=(), repl
         REGISTRY[(fn.__module__, fn.__name__)] = meta
         return fn
     return deco
+
+
+class HarnessLimit(Exception):
+    """the code under test used a duck-typed stand-in in a way the stand-in does not model"""
+
+
+class Duck:
+    """mixin for duck-typed stand-ins (SpanStr, LenStr, RunStr, ...): an attribute the stand-in does not
+    model makes the path INCONCLUSIVE (CrossHair: IgnoreAttempt; concrete replay: HARNESS) instead of
+    being reported as a violation of the property -- a refactoring that merely calls another str method
+    on a value must not raise an alarm"""
+    def __getattr__(self, name):
+        if name.startswith('__') and name.endswith('__'):
+            raise AttributeError(name)
+        if not CONCRETE:
+            try:
+                from crosshair.util import IgnoreAttempt
+            except ImportError:
+                IgnoreAttempt = None
+            if IgnoreAttempt is not None:
+                raise IgnoreAttempt('duck %s does not model .%s' % (type(self).__name__, name))
+        raise HarnessLimit('duck %s does not model .%s' % (type(self).__name__, name))
